@@ -5,6 +5,7 @@
   ZlModel.Config (assumption A-TOML: key search order name / lower / upper / lower-first, exact kind match,
   unknown keys ignored), validated by the `config` correspondence on generated documents.
 -/
+import ZlProofs.Lemmas.RegSeq
 import ZlModel.Config
 import ZlProofs.Props.C04
 namespace Zl.C11
@@ -157,5 +158,38 @@ theorem defaults_roundtrip_partial (fs : List FieldSpec) (hnd : (fs.map (·.name
 /-- non-vacuity: the probe spec of the harness, configured from a document that sets one field -/
 example : configure (fun ns => if ns == "e_x" then .table [("a", ⟨.int, "5"⟩), ("Zextra", ⟨.str, "q"⟩)] else .absent)
     { fields := [⟨"A", .int, "7"⟩, ⟨"B", .bool, "false"⟩] } "e_x" = .ok [("A", "5"), ("B", "false")] := by rfl
+
+
+/-! ## Registries as objects: no leak at the level of the heap
+
+  `ZlModel/RegSeq.lean` models registries as objects on a heap with handles that may alias (`Filter` with empty
+  options returns its receiver; any other successful `Filter` allocates). It is tied to registration.go by the
+  `regseq` correspondence: arbitrary sequences of NewRegistry / Register* / Filter / SetConfiguration /
+  GetConfiguration / Names / Sources / WriteJSON, every observation compared. -/
+section Heap
+open Zl.RegSeq
+
+/-- reads (GetConfiguration, Names, Sources, WriteJSON) change nothing -/
+theorem heap_reads_pure (hp : Heap) (h : Nat) :
+    (step hp (.getCfg h)).1 = hp ∧ (step hp (.names h)).1 = hp ∧ (step hp (.sources h)).1 = hp ∧ (step hp (.listing h)).1 = hp :=
+  reads_pure hp h
+
+/-- `SetConfiguration` reaches exactly one registry object -/
+theorem heap_setConfiguration_local (hp : Heap) (h : Nat) (tag : String) (j : Nat) (hj : hp.handles[h]? ≠ some j) :
+    (step hp (.setCfg h tag)).1.regs[j]? = hp.regs[j]? := setCfg_frame hp h tag j hj
+
+/-- a filtered registry is a new object that starts with its source's configuration of that moment … -/
+theorem heap_filter_inherits (hp : Heap) (h i : Nat) (r r' : Reg) (o : FilterOptions)
+    (hr : hp.regOf h = some (i, r)) (hf : filter r o = .ok r') (hne : o.empty = false) :
+    (step hp (.filter h o)).1.regs = hp.regs ++ [r'] ∧ (step hp (.filter h o)).1.handles = hp.handles ++ [hp.regs.length] ∧ r'.cfg = r.cfg :=
+  filter_allocates hp h i r r' o hr hf hne
+
+/-- … and configuring the source afterwards does not reach it -/
+theorem heap_no_leak (hp : Heap) (h i : Nat) (r r' : Reg) (o : FilterOptions) (tag : String)
+    (hr : hp.regOf h = some (i, r)) (hf : filter r o = .ok r') (hne : o.empty = false) (hi : i < hp.regs.length) :
+    (step (step hp (.filter h o)).1 (.setCfg h tag)).1.regs[hp.regs.length]? = some r' :=
+  no_leak_after_filter hp h i r r' o tag hr hf hne hi
+
+end Heap
 
 end Zl.C11
